@@ -33,6 +33,8 @@ def main():
         from harness.workers.state_worker import SubEmb
         emb = SubEmb(emb)
     mutvals = bool(job.get('mutvals')) and fam[1] == 'O'
+    # a key that cannot be ordered against the stored ones: an int among the strings of the 'mid' embedding (object keys)
+    incomp = 7 if (fam[0] == 'O' and job.get('emb', 'mid') == 'mid' and not job.get('subargs')) else None
     if mutvals:
         # values are mutable objects (one-element lists holding the rank): `v = t[k]; change v in place; t[k] = v` is how
         # a change inside a plain mutable value is announced - storing the very object that is already there counts
@@ -89,7 +91,7 @@ def main():
                 if is_set:
                     op = rng.choice(['insert', 'insert', 'insert', 'setitem', 'delitem', 'delitem', 'discard',
                                      'popitem', 'contains', 'len', 'bool', 'ior', 'isub', 'iand', 'ixor',
-                                     'update', 'clear', 'badwrite', 'badcontains', 'badremove', 'baddiscard'])
+                                     'update', 'clear', 'badwrite', 'badcontains', 'badremove', 'baddiscard'] + (['xcontains'] if incomp is not None else []))
                     if op == 'clear' and rng.random() < 0.7:
                         op = 'insert'
                     if op == 'badremove' and fam[0] == 'O' and len(t) == 0:
@@ -156,6 +158,8 @@ def main():
                         t.add(api.bad_key(fam)); res = ['ok']
                     elif op == 'badcontains':
                         res = ['v', 1 if (api.bad_key(fam) in t) else 0]
+                    elif op == 'xcontains':
+                        res = ['v', 1 if (incomp in t) else 0]
                     elif op == 'badremove':
                         t.remove(api.bad_key(fam)); res = ['ok']
                     elif op == 'baddiscard':
@@ -163,7 +167,7 @@ def main():
                 else:
                     op = rng.choice(['setitem', 'setitem', 'setitem', 'insert', 'setdefault', 'delitem', 'delitem',
                                      'pop', 'popdefault', 'popitem', 'get', 'getitem', 'contains', 'len', 'bool',
-                                     'update', 'clear', 'badwrite', 'badget', 'badgetitem', 'badcontains', 'badpop', 'badpopdefault'])
+                                     'update', 'clear', 'badwrite', 'badget', 'badgetitem', 'badcontains', 'badpop', 'badpopdefault'] + (['xcontains', 'xget', 'xgetitem'] if incomp is not None else []))
                     if op == 'clear' and rng.random() < 0.7:
                         op = 'setitem'
                     if op == 'insert' and not hasattr(t, 'insert'):
@@ -227,6 +231,13 @@ def main():
                         res = ['v', emb.rv(t[api.bad_key(fam)])]
                     elif op == 'badcontains':
                         res = ['v', 1 if (api.bad_key(fam) in t) else 0]
+                    elif op == 'xcontains':
+                        res = ['v', 1 if (incomp in t) else 0]
+                    elif op == 'xget':
+                        x = t.get(incomp, sent)
+                        res = ['v', v if x is sent else 'found']
+                    elif op == 'xgetitem':
+                        res = ['v', emb.rv(t[incomp])]
                     elif op == 'badpop':
                         t.pop(api.bad_key(fam)); res = ['ok']
                     elif op == 'badpopdefault':
